@@ -14,8 +14,8 @@ for f in sorted(glob.glob(os.path.join(V, "seeded", "*", "meta.json"))):
     v = m.get("verdict") or ""
     if v.startswith("retired"):
         caught = "retired (made equivalent by a later fix, see meta.json)"
-    elif v.startswith("not counted") and not m.get("caught_by"):
-        caught = "not counted (inside the statement's ambiguity, see meta.json)"
+    elif v.startswith("not counted") and m["property"] not in (m.get("caught_by") or []):
+        caught = "not counted (outside what the statement settles, see meta.json)"
     hist = " (after strengthening the generator; missed at first)" if m.get("history") else ""
     rows.append("| %s | %s | %s | demo %s, suite %s | %s%s |" % (m["name"], m["property"], what.replace("|", "/"),
                 "ok" if m.get("demo_ok") else ("was ok before the later fix" if v else "NOT CONFIRMED"), "green" if m.get("suite_ok") else "?", caught, hist))
